@@ -627,7 +627,16 @@ def replay(ctx, rec: Dict[str, Any]) -> Dict[str, Any]:
 def units(ctx):
     return [core.Unit(f"{PROP}.flow_event", flow_event_vcs, [TR + ".Trace.flow_event"]), core.Unit(f"{PROP}.suffix", suffix_vcs, [TR + ".Trace.write_raw_trace", TF + ".read_trace", TF + ".write_trace"]),
             core.Unit(f"{PROP}.writers", writers_vcs, [TA + ".TraceAnalysis.generate_trace_with_counters", CPA + ".CriticalPathAnalysis.overlay_critical_path_analysis"]),
-            core.Unit(f"{PROP}.rank_discovery", rank_discovery_vcs, [TF + ".create_rank_to_trace_dict"])]
+            core.Unit(f"{PROP}.rank_discovery", rank_discovery_vcs, [TF + ".create_rank_to_trace_dict"]),
+            # the overlay marks `critical_path_events_set` and draws `critical_path_edges_set`: that both are exactly the sets of THIS call's path,
+            # for arbitrary stale contents, is C09's contract of critical_path, re-generated here from the current source
+            core.Unit(f"{PROP}.critical_sets", _critical_sets_vcs, [CPA + ".CPGraph.critical_path"])]
+
+
+def _critical_sets_vcs() -> List[core.VC]:
+    from contracts import C09
+
+    return C09.critical_path_exec_vcs(PROP)
 
 
 SPEC = Spec(
